@@ -127,6 +127,34 @@ fn case(t0: &mut Tape, w: &Worker) -> CaseResult {
         }
         cs.stream.links = first_seen.iter().map(|k| Link { packets: groups.remove(k).unwrap(), barrel: Barrel::Inner, lane_ids: vec![] }).collect();
     }
+    // a further link that carries RDH-only packets (no payload at all): skipped or analysed, such packets must not
+    // disturb what is reported for the other links (offsets included)
+    if ot.chance(1, 3) && !cs.stream.links.is_empty() {
+        let used_links: Vec<u8> = cs.stream.links.iter().flat_map(|l| l.packets.iter().map(|p| p.rdh.link_id)).collect();
+        let used_fees: Vec<u16> = cs.stream.links.iter().flat_map(|l| l.packets.iter().map(|p| p.rdh.fee_id)).collect();
+        let base = cs.stream.links[0].packets[0].rdh.clone();
+        let link_id = (0..=255u8).find(|l| !used_links.contains(l));
+        let fee_id = [0x0100u16, 0x0200, 0x0300, 0x0001, 0x0002, 0x0003].iter().map(|x| base.fee_id ^ x).find(|f| !used_fees.contains(f) && (f & 0x3F) <= 47);
+        if let (Some(link_id), Some(fee_id)) = (link_id, fee_id) {
+            let n_hbf = 1 + ot.below(4);
+            let mut packets = vec![];
+            for h in 0..n_hbf {
+                for page in 0..2u16 {
+                    let mut r = base.clone();
+                    r.link_id = link_id;
+                    r.fee_id = fee_id;
+                    r.orbit = base.orbit.wrapping_add(h as u32);
+                    r.pages_counter = page;
+                    r.stop_bit = page as u8;
+                    let mut p = Packet::new(r);
+                    p.fix_sizes();
+                    packets.push(p);
+                }
+            }
+            cs.stream.links.push(Link { packets, barrel: Barrel::Inner, lane_ids: vec![] });
+            out.labels.push("link_of_payloadless_packets".into());
+        }
+    }
     let lens: Vec<usize> = cs.stream.links.iter().map(|l| l.packets.len()).collect();
     let orders = [order_contiguous(&lens), order_round_robin(&lens), order_random(&lens, &mut ot), order_random(&lens, &mut ot)];
     let mut normalised_per_order: Vec<BTreeMap<u32, Vec<String>>> = vec![];
